@@ -5,34 +5,64 @@
 -/
 import SqlDt.Model.Parse
 import SqlDt.Spec.Render
+import SqlDt.Lemmas.FloatFrac
 namespace SqlDt.Lemmas
 open SqlDt Gen
 
 /-! ### 1. sign symmetry (structural) -/
 
 theorem F64.round_neg (s : Bool) (num den : Nat) : F64.round (!s) num den = F64.neg (F64.round s num den) := by
-  sorry
+  unfold F64.round
+  split
+  · rfl
+  · split <;> rfl
+
+theorem bne_not_left (s t : Bool) : ((!s) != t) = !(s != t) := by cases s <;> cases t <;> rfl
+theorem bne_not_right (s t : Bool) : (s != (!t)) = !(s != t) := by cases s <;> cases t <;> rfl
 
 theorem F64.mul_neg_left (a b : F64) : F64.mul (F64.neg a) b = F64.neg (F64.mul a b) := by
-  sorry
+  cases a <;> cases b <;> simp only [F64.mul, F64.neg, bne_not_left, F64.round_neg] <;> split <;> rfl
 
 theorem F64.mul_neg_right (a b : F64) : F64.mul a (F64.neg b) = F64.neg (F64.mul a b) := by
-  sorry
+  cases a <;> cases b <;> simp only [F64.mul, F64.neg, bne_not_right, F64.round_neg] <;> split <;> rfl
 
 theorem F64.div_neg_left (a b : F64) : F64.div (F64.neg a) b = F64.neg (F64.div a b) := by
-  sorry
+  cases a <;> cases b <;>
+    (simp only [F64.div, F64.neg, bne_not_left, F64.round_neg, F64.zero]
+     try first | rfl | (split <;> first | rfl | (split <;> rfl)))
 
 theorem F64.div_neg_right (a b : F64) : F64.div a (F64.neg b) = F64.neg (F64.div a b) := by
-  sorry
+  cases a <;> cases b <;>
+    (simp only [F64.div, F64.neg, bne_not_right, F64.round_neg, F64.zero]
+     try first | rfl | (split <;> first | rfl | (split <;> rfl)))
 
 /-- `(-n) as f64 = -(n as f64)` for `n ≠ 0` (for 0 the left side is +0, the right side −0). -/
 theorem F64.ofInt_neg (n : Int) (h : n ≠ 0) : F64.ofInt (-n) = F64.neg (F64.ofInt n) := by
-  sorry
+  unfold F64.ofInt
+  rw [← F64.round_neg, Int.natAbs_neg]
+  congr 1
+  by_cases h1 : n < 0
+  · have : ¬ (-n < 0) := by omega
+    simp only [h1, this, decide_true, decide_false, Bool.not_true]
+  · have : (-n < 0) := by omega
+    simp only [h1, this, decide_true, decide_false, Bool.not_false]
 
-/-- Truncating casts are odd functions up to the asymmetry of the integer range. -/
-theorem F64.toIntSat_neg (lo hi : Int) (x : F64) :
+theorem F64.truncInt_not (s : Bool) (m : Nat) (e : Int) : F64.truncInt (!s) m e = -F64.truncInt s m e := by
+  unfold F64.truncInt
+  cases s <;> simp
+
+/-- Truncating casts are odd functions up to the asymmetry of the integer range
+    (needs `lo ≤ hi`: for `hi + 1 < lo` the two sides test the bounds in opposite order). -/
+theorem F64.toIntSat_neg (lo hi : Int) (x : F64) (h : lo ≤ hi) :
     F64.toIntSat lo hi (F64.neg x) = -(F64.toIntSat (-hi) (-lo) x) := by
-  sorry
+  cases x with
+  | nan => simp [F64.toIntSat, F64.neg]
+  | inf s => cases s <;> simp [F64.toIntSat, F64.neg]
+  | fin s m e =>
+    simp only [F64.toIntSat, F64.neg, F64.truncInt_not]
+    generalize F64.truncInt s m e = t
+    repeat' split
+    all_goals omega
 
 /-! ### 2. round-to-nearest-even: result is canonical and within half a unit in the last place -/
 
@@ -44,30 +74,159 @@ theorem F64.roundPos_spec (num den m : Nat) (e : Int) (hn : 0 < num) (hd : 0 < d
     m < F64.P53 ∧ F64.EMIN ≤ e ∧ e ≤ F64.EMAX ∧ (F64.P52 ≤ m ∨ e = F64.EMIN) ∧
     2 * ((m * F64.pow2 e.toNat * den : Nat) - (num * F64.pow2 (-e).toNat : Nat) : Int).natAbs
       ≤ F64.pow2 e.toNat * den := by
-  sorry
+  have := roundPos_spec' num den m e hn hd h
+  simp only [pow2_eq, P52_eq, P53_eq]
+  exact this
 
 /-! ### 3. exactness on small integers -/
 
 /-- Every integer of magnitude ≤ 2^53 converts exactly: casting back gives the same integer. -/
 theorem F64.toI64_ofInt (n : Int) (h : n.natAbs ≤ 9007199254740992) : F64.toI64 (F64.ofInt n) = n := by
-  sorry
+  by_cases h0 : n = 0
+  · subst h0; decide
+  · obtain ⟨m, e, h1, _, _, h2⟩ := ofInt_fin n h0 h
+    rw [h1]
+    unfold F64.toI64 F64.toIntSat
+    simp only [truncInt_rep _ h2]
+    unfold I64_MIN I64_MAX
+    by_cases hs : n < 0
+    · rw [decide_eq_true hs]
+      simp only [↓reduceIte]
+      rw [if_neg (by omega), if_neg (by omega)]; omega
+    · rw [decide_eq_false hs]
+      simp only [Bool.false_eq_true, ↓reduceIte]
+      rw [if_neg (by omega), if_neg (by omega)]; omega
 
 /-- Products of integers that stay within 2^53 are exact. -/
 theorem F64.mul_ofInt_exact (a b : Int) (ha : a.natAbs ≤ 9007199254740992) (hb : b.natAbs ≤ 9007199254740992)
     (hab : (a * b).natAbs ≤ 9007199254740992) (hne : a * b ≠ 0) :
     F64.mul (F64.ofInt a) (F64.ofInt b) = F64.ofInt (a * b) := by
-  sorry
+  have _ := hab   -- not needed: the product of two exact conversions is rounded once, like `ofInt (a * b)`
+  have ha0 : a ≠ 0 := fun h => hne (by rw [h, Int.zero_mul])
+  have hb0 : b ≠ 0 := fun h => hne (by rw [h, Int.mul_zero])
+  obtain ⟨m1, e1, h1, _, _, r1⟩ := ofInt_fin a ha0 ha
+  obtain ⟨m2, e2, h2, _, _, r2⟩ := ofInt_fin b hb0 hb
+  rw [h1, h2, mul_fin _ _ (by decide) (by decide) r1 r2]
+  unfold F64.ofInt
+  rw [Int.natAbs_mul, sign_mul a b ha0 hb0]
 
 /-! ### 4. the fraction of a second when formatting: truncation, never rounding -/
+
+theorem factor_tbl :
+    FRACTION_FACTOR_BITS.map F64.ofBits =
+      [F64.ofInt ((10 ^ 6 : Nat) : Int), F64.ofInt ((10 ^ 5 : Nat) : Int), F64.ofInt ((10 ^ 4 : Nat) : Int),
+       F64.ofInt ((10 ^ 3 : Nat) : Int), F64.ofInt ((10 ^ 2 : Nat) : Int), F64.ofInt ((10 ^ 1 : Nat) : Int),
+       F64.ofInt ((10 ^ 0 : Nat) : Int),
+       F64.fin false 7205759403792794 (-56), F64.fin false 5764607523034235 (-59),
+       F64.fin false 4611686018427388 (-62)] := by decide +kernel
+
+theorem fracB1 (u : Nat) (hu : u ≤ 999999) :
+    F64.toU32 (F64.div (F64.ofInt (u : Int)) (F64.fin false 7205759403792794 (-56))) = ((u * 10 : Nat) : Int) := by
+  apply fracB u _ 10 _ hu (by decide) (by decide) (by decide) (by decide)
+  · intro w; omega
+  · intro w h1 h2
+    have : (2:Nat) ^ (-(-56 : Int)).toNat = 72057594037927936 := by decide
+    rw [this]; omega
+
+theorem fracB2 (u : Nat) (hu : u ≤ 999999) :
+    F64.toU32 (F64.div (F64.ofInt (u : Int)) (F64.fin false 5764607523034235 (-59))) = ((u * 100 : Nat) : Int) := by
+  apply fracB u _ 100 _ hu (by decide) (by decide) (by decide) (by decide)
+  · intro w; omega
+  · intro w h1 h2
+    have : (2:Nat) ^ (-(-59 : Int)).toNat = 576460752303423488 := by decide
+    rw [this]; omega
+
+theorem fracB3 (u : Nat) (hu : u ≤ 999999) :
+    F64.toU32 (F64.div (F64.ofInt (u : Int)) (F64.fin false 4611686018427388 (-62))) = ((u * 1000 : Nat) : Int) := by
+  apply fracB u _ 1000 _ hu (by decide) (by decide) (by decide) (by decide)
+  · intro w; omega
+  · intro w h1 h2
+    have : (2:Nat) ^ (-(-62 : Int)).toNat = 4611686018427387904 := by decide
+    rw [this]; omega
+
+
+theorem factor_get (p : Nat) (hp : p ≤ 9) :
+    ∃ bits, idx FRACTION_FACTOR_BITS (p : Int) = .ok bits ∧
+      (FRACTION_FACTOR_BITS.map F64.ofBits)[p]? = some (F64.ofBits bits) := by
+  have : p = 0 ∨ p = 1 ∨ p = 2 ∨ p = 3 ∨ p = 4 ∨ p = 5 ∨ p = 6 ∨ p = 7 ∨ p = 8 ∨ p = 9 := by omega
+  rcases this with h | h | h | h | h | h | h | h | h | h <;> subst h <;> exact ⟨_, rfl, rfl⟩
 
 /-- `NaiveDateTime::fraction(p)` for every microsecond value and every precision 0..9:
     `⌊usec / 10^(6−p)⌋` for p ≤ 6 and `usec · 10^(p−6)` for p > 6 (the constants 0.1, 0.01, 0.001 are not exact
     doubles, yet the quotient rounds to the exact integer). -/
 theorem fraction_eq (dt : NDT) (p : Nat) (hu : 0 ≤ dt.usec ∧ dt.usec ≤ 999999) (hp : p ≤ 9) :
     dt.fraction p = .ok (Spec.fractionOf dt.usec p) := by
-  sorry
+  obtain ⟨bits, hb1, hb2⟩ := factor_get p hp
+  unfold NDT.fraction
+  rw [hb1]
+  show Except.ok _ = _
+  congr 1
+  obtain ⟨u, hu'⟩ : ∃ u : Nat, dt.usec = (u : Int) := ⟨dt.usec.toNat, by omega⟩
+  rw [hu'] at hu ⊢
+  have hu2 : u ≤ 999999 := by omega
+  rw [factor_tbl] at hb2
+  unfold Spec.fractionOf
+  have : p = 0 ∨ p = 1 ∨ p = 2 ∨ p = 3 ∨ p = 4 ∨ p = 5 ∨ p = 6 ∨ p = 7 ∨ p = 8 ∨ p = 9 := by omega
+  rcases this with h | h | h | h | h | h | h | h | h | h <;> subst h <;>
+    simp only [List.getElem?_cons_zero, List.getElem?_cons_succ, Option.some.injEq] at hb2 <;> rw [← hb2]
+  · rw [fracA u 6 hu2 (by decide)]; simp
+  · rw [fracA u 5 hu2 (by decide)]; simp
+  · rw [fracA u 4 hu2 (by decide)]; simp
+  · rw [fracA u 3 hu2 (by decide)]; simp
+  · rw [fracA u 2 hu2 (by decide)]; simp
+  · rw [fracA u 1 hu2 (by decide)]; simp
+  · rw [fracA u 0 hu2 (by decide)]; simp
+  · rw [fracB1 u hu2]; simp
+  · rw [fracB2 u hu2]; simp
+  · rw [fracB3 u hu2]; simp
 
 /-! ### 5. the fraction of a second when parsing: half-up rounding to microseconds -/
+
+theorem parseB1 (int : Nat) (h : int < 10 ^ 7) :
+    F64.toU32 (F64.roundHalfAway (F64.mul (F64.ofInt (int : Int)) (F64.fin false 7205759403792794 (-56)))) =
+      (((int * 1000000 + 10 ^ 7 / 2) / 10 ^ 7 : Nat) : Int) := by
+  by_cases h0 : int = 0
+  · subst h0; decide +kernel
+  · have hp : (10 : Nat) ^ 7 = 10000000 := by decide
+    rw [hp] at h ⊢
+    generalize hH : (int * 1000000 + 10000000 / 2) / 10000000 = H
+    have hB : (72057594037927936 : Nat) = 2 ^ (-(-56 : Int)).toNat := by decide
+    apply parseB int _ 72057594037927936 H _ (by decide) hB (by decide) (by decide) (by omega) (by omega) (by omega)
+      (by omega) (by omega) (by omega)
+
+theorem parseB2 (int : Nat) (h : int < 10 ^ 8) :
+    F64.toU32 (F64.roundHalfAway (F64.mul (F64.ofInt (int : Int)) (F64.fin false 5764607523034235 (-59)))) =
+      (((int * 1000000 + 10 ^ 8 / 2) / 10 ^ 8 : Nat) : Int) := by
+  by_cases h0 : int = 0
+  · subst h0; decide +kernel
+  · have hp : (10 : Nat) ^ 8 = 100000000 := by decide
+    rw [hp] at h ⊢
+    generalize hH : (int * 1000000 + 100000000 / 2) / 100000000 = H
+    have hB : (576460752303423488 : Nat) = 2 ^ (-(-59 : Int)).toNat := by decide
+    apply parseB int _ 576460752303423488 H _ (by decide) hB (by decide) (by decide) (by omega) (by omega) (by omega)
+      (by omega) (by omega) (by omega)
+
+theorem parseB3 (int : Nat) (h : int < 10 ^ 9) :
+    F64.toU32 (F64.roundHalfAway (F64.mul (F64.ofInt (int : Int)) (F64.fin false 4611686018427388 (-62)))) =
+      (((int * 1000000 + 10 ^ 9 / 2) / 10 ^ 9 : Nat) : Int) := by
+  by_cases h0 : int = 0
+  · subst h0; decide +kernel
+  · have hp : (10 : Nat) ^ 9 = 1000000000 := by decide
+    rw [hp] at h ⊢
+    generalize hH : (int * 1000000 + 1000000000 / 2) / 1000000000 = H
+    have hB : (4611686018427387904 : Nat) = 2 ^ (-(-62 : Int)).toNat := by decide
+    apply parseB int _ 4611686018427387904 H _ (by decide) hB (by decide) (by decide) (by omega) (by omega) (by omega)
+      (by omega) (by omega) (by omega)
+
+theorem parseA' (int len : Nat) (hl : len ≤ 6) (hi : int < 10 ^ len) :
+    F64.toU32 (F64.roundHalfAway (F64.mul (F64.ofInt (int : Int)) (F64.ofInt ((10 ^ (6 - len) : Nat) : Int)))) =
+      ((int * 10 ^ (6 - len) : Nat) : Int) := by
+  have h1 : int * 10 ^ (6 - len) < 10 ^ len * 10 ^ (6 - len) := Nat.mul_lt_mul_of_pos_right hi (by positivity)
+  rw [← Nat.pow_add, show len + (6 - len) = 6 by omega] at h1
+  have h2 : 10 ^ (6 - len) ≤ 10 ^ 6 := Nat.pow_le_pow_right (by decide) (by omega)
+  have h3 : 10 ^ len ≤ 10 ^ 6 := Nat.pow_le_pow_right (by decide) hl
+  apply parseA <;> omega
+
 
 /-- `parse_fraction` on `len` digits with value `int` (`int < 10^len`, `len ≤ 9`):
     `int · 10^(6−len)` for len ≤ 6, and `⌊(int · 10^6 + 10^len / 2) / 10^len⌋` (half-up) for len > 6. -/
@@ -75,6 +234,26 @@ theorem parseFraction_value (int : Nat) (len : Nat) (hl : len ≤ 9) (hi : int <
     (FRACTION_FACTOR_BITS[len]?).map (fun bits =>
       F64.toU32 (F64.roundHalfAway (F64.mul (F64.ofInt int) (F64.ofBits bits)))) =
     some (if len ≤ 6 then (int * 10 ^ (6 - len) : Nat) else ((int * 1000000 + 10 ^ len / 2) / 10 ^ len : Nat)) := by
-  sorry
+  have hmap : (FRACTION_FACTOR_BITS[len]?).map (fun bits =>
+      F64.toU32 (F64.roundHalfAway (F64.mul (F64.ofInt int) (F64.ofBits bits)))) =
+      ((FRACTION_FACTOR_BITS.map F64.ofBits)[len]?).map (fun c =>
+        F64.toU32 (F64.roundHalfAway (F64.mul (F64.ofInt int) c))) := by
+    rw [List.getElem?_map, Option.map_map]; rfl
+  rw [hmap, factor_tbl]
+  have : len = 0 ∨ len = 1 ∨ len = 2 ∨ len = 3 ∨ len = 4 ∨ len = 5 ∨ len = 6 ∨ len = 7 ∨ len = 8 ∨ len = 9 := by
+    omega
+  rcases this with h | h | h | h | h | h | h | h | h | h <;> subst h <;>
+    simp only [List.getElem?_cons_zero, List.getElem?_cons_succ, Option.map_some, Option.pure_def,
+      Option.bind_eq_bind, Option.bind_some, Option.some.injEq, Nat.reduceLeDiff, ↓reduceIte]
+  · exact parseA' int 0 (by decide) hi
+  · exact parseA' int 1 (by decide) hi
+  · exact parseA' int 2 (by decide) hi
+  · exact parseA' int 3 (by decide) hi
+  · exact parseA' int 4 (by decide) hi
+  · exact parseA' int 5 (by decide) hi
+  · exact parseA' int 6 (by decide) hi
+  · exact parseB1 int hi
+  · exact parseB2 int hi
+  · exact parseB3 int hi
 
 end SqlDt.Lemmas
